@@ -588,6 +588,13 @@ impl<'a, 'tcx> HirVisitor<'tcx> for BodyFacts<'a, 'tcx> {
                     rustc_ast_lit::LitKind::Char(c) => format!("c:{}", c),
                     rustc_ast_lit::LitKind::Float(s, _) => format!("f:{}", s),
                     rustc_ast_lit::LitKind::Byte(b) => format!("y:{}", b),
+                    rustc_ast_lit::LitKind::ByteStr(bs, _) | rustc_ast_lit::LitKind::CStr(bs, _) => {
+                        let mut h = String::from("h:");
+                        for b in bs.as_byte_str().iter() {
+                            let _ = write!(h, "{:02x}", b);
+                        }
+                        h
+                    }
                     _ => "o:".to_string(),
                 };
                 self.lits.insert(s);
@@ -854,7 +861,13 @@ fn emit_all(tcx: TyCtxt<'_>) {
     }
 
     // ---- bodies
-    for ldid in tcx.hir_body_owners() {
+    let mut owners: Vec<_> = tcx.hir_body_owners().collect();
+    owners.sort_by_key(|l| {
+        let k = tcx.def_kind(l.to_def_id());
+        let coro = tcx.is_coroutine(l.to_def_id());
+        (if coro { 0 } else if matches!(k, DefKind::Closure | DefKind::SyntheticCoroutineBody) { 1 } else { 2 }, l.local_def_index.as_usize())
+    });
+    for ldid in owners {
         let did = ldid.to_def_id();
         let kind = tcx.def_kind(did);
         let is_fn_like = matches!(kind, DefKind::Fn | DefKind::AssocFn | DefKind::Closure | DefKind::SyntheticCoroutineBody);
@@ -894,16 +907,27 @@ fn emit_all(tcx: TyCtxt<'_>) {
         let is_async = tcx.asyncness(did).is_async();
         let is_coroutine = tcx.is_coroutine(did);
         // MIR
-        let steal = tcx.mir_drops_elaborated_and_const_checked(ldid);
-        let (body_ref, fallback): (&Body<'_>, bool);
+        // Preferred: `mir_promoted` (natural CFG: coroutines still have Yield terminators,
+        // drops not yet elaborated). Fallbacks are flagged.
+        let (promoted_steal, _) = tcx.mir_promoted(ldid);
+        let steal2;
+        let (body_ref, fallback): (&Body<'_>, u8);
         let guard;
-        if !steal.is_stolen() {
-            guard = steal.borrow();
+        let guard2;
+        if !promoted_steal.is_stolen() {
+            guard = promoted_steal.borrow();
             body_ref = &*guard;
-            fallback = false;
+            fallback = 0;
         } else {
-            body_ref = tcx.optimized_mir(did);
-            fallback = true;
+            steal2 = tcx.mir_drops_elaborated_and_const_checked(ldid);
+            if !steal2.is_stolen() {
+                guard2 = steal2.borrow();
+                body_ref = &*guard2;
+                fallback = 1;
+            } else {
+                body_ref = tcx.optimized_mir(did);
+                fallback = 2;
+            }
             nfallback += 1;
         }
         let env = TypingEnv::post_analysis(tcx, did);
@@ -985,7 +1009,10 @@ fn emit_all(tcx: TyCtxt<'_>) {
 }
 
 impl rustc_driver::Callbacks for Cb {
-    fn after_analysis<'tcx>(&mut self, _c: &Compiler, tcx: TyCtxt<'tcx>) -> Compilation {
+    fn after_expansion<'tcx>(&mut self, _c: &Compiler, tcx: TyCtxt<'tcx>) -> Compilation {
+        // Run before the analysis phase: bodies are dumped right after their
+        // drops-elaborated MIR is built, coroutine/closure bodies first, so that a later
+        // request for `optimized_mir` (coroutine layout) cannot steal an undumped body.
         emit_all(tcx);
         Compilation::Continue
     }
